@@ -27,7 +27,10 @@ Expect(v, id, w) == IF ~Supported(T, id, w) THEN "nil"
 ForgedGrid ==
   {[vers |-> c[1], suite |-> c[2], weak |-> c[3], expect |-> Expect(c[1], c[2], c[3]),
     class |-> (IF Expect(c[1], c[2], c[3]) = "work" THEN ClassOf(Profile(T, c[1], c[2])) ELSE "nil"),
-    kind |-> (IF Supported(T, c[2], c[3]) THEN Info(T, c[2]).kind ELSE "none")] :
+    kind |-> (IF Supported(T, c[2], c[3]) THEN Info(T, c[2]).kind ELSE "none"),
+    \* what distinguishes the protection classes: MAC size (CBC-SHA1 / -SHA256 / -SHA384, RC4), explicit nonce (GCM / ChaCha20)
+    mac |-> (IF Supported(T, c[2], c[3]) THEN Info(T, c[2]).mac ELSE 0),
+    expl |-> (IF Supported(T, c[2], c[3]) THEN Info(T, c[2]).expl ELSE 0)] :
      c \in OldVersions \X Probe \X BOOLEAN}
 
 VARIABLE done
